@@ -77,6 +77,8 @@ def run(R):
             if p.endswith(b".rej") and p not in named and (p not in r.before or r.after[p][:2] != r.before[p][:2]):
                 R.oracle_fail(f"reject file {p!r} written although no hunk was reported failed for it", data); break
     R.dist["driver outcomes"] = dist
+    import ties
+    ties.t8(R, "T8-driver", cs[:150 if quick else 2500])
     # exit status 2 is for real trouble: garbage input, bad options, missing patch file
     bad = [([b"-i", b"nonexistent.diff"], {}, b""), ([b"--bogus"], {}, b""), ([b"-F", b"x", b"f"], {b"f": ("f", b"a\n", 0o644)}, b""),
            ([b"f"], {b"f": ("f", b"a\n", 0o644)}, b"this is not a patch\nat all\n"), ([b"-e", b"f"], {b"f": ("f", b"a\n", 0o644)}, b"1c\nx\n.\n")]
